@@ -553,6 +553,7 @@ static var Slice_Iter_Init(var self) {
   if (r->step > 0) {
     var curr = iter_init(s->iter);
     for(int64_t i = 0; i < r->start; i++) {
+      if (curr is Terminal) { break; }
       curr = iter_next(s->iter, curr);
     }
     return curr;
@@ -561,6 +562,7 @@ static var Slice_Iter_Init(var self) {
   if (r->step < 0) {
     var curr = iter_last(s->iter);
     for (int64_t i = 0; i < (int64_t)len(s->iter)-r->stop; i++) {
+      if (curr is Terminal) { break; }
       curr = iter_prev(s->iter, curr);
     }
     return curr;
@@ -575,12 +577,14 @@ static var Slice_Iter_Next(var self, var curr) {
   
   if (r->step > 0) {
     for (int64_t i = 0; i < r->step; i++) {
+      if (curr is Terminal) { break; }
       curr = iter_next(s->iter, curr);
     }
   }
   
   if (r->step < 0) {
     for (int64_t i = 0; i < -r->step; i++) {
+      if (curr is Terminal) { break; }
       curr = iter_prev(s->iter, curr);
     }
   }
@@ -600,6 +604,7 @@ static var Slice_Iter_Last(var self) {
   if (r->step > 0) {
     var curr = iter_last(s->iter);
     for(int64_t i = 0; i < (int64_t)len(s->iter)-r->stop; i++) {
+      if (curr is Terminal) { break; }
       curr = iter_prev(s->iter, curr);
     }
     return curr;
@@ -608,6 +613,7 @@ static var Slice_Iter_Last(var self) {
   if (r->step < 0) {
     var curr = iter_init(s->iter);
     for(int64_t i = 0; i < r->start; i++) {
+      if (curr is Terminal) { break; }
       curr = iter_next(s->iter, curr);
     }
     return curr;
@@ -622,12 +628,14 @@ static var Slice_Iter_Prev(var self, var curr) {
   
   if (r->step > 0) {
     for (int64_t i = 0; i < r->step; i++) {
+      if (curr is Terminal) { break; }
       curr = iter_prev(s->iter, curr);
     }
   }
   
   if (r->step < 0) {
     for (int64_t i = 0; i < -r->step; i++) {
+      if (curr is Terminal) { break; }
       curr = iter_next(s->iter, curr);
     }
   }
